@@ -125,7 +125,7 @@ type Srv struct {
 }
 
 type closeEv struct {
-	ID        int
+	ID          int
 	Enter, Exit int64
 }
 
